@@ -217,6 +217,14 @@ def _cgdp(ctx, repo):
         have = {tuple(k) for k, *_ in keys}
         ctx.check(have == {(c1, a1, c2, a2), (c1, a2, c2, a1)}, "R-REGISTER", "both orientations (c1@a1,c2@a2) and (c1@a2,c2@a1) have a variable", f, creates[0],
                   f"found keys {sorted(have)}: a placement of the two computations on the two agents in the other order would cost nothing")
+        # the only way to skip a (pair of ends, pair of agents) is that its variable already exists: `continue` under `<its key> in betas`
+        skips = [x for x in ast.walk(comp_loop.node) if isinstance(x, (ast.Continue, ast.Break))]
+        for sk in skips:
+            fs = {(norm(t_), p_) for t_, p_ in facts_at(ff, sk)}
+            oks = any(p_ and t_ in (f"({c1}, {a1}, {c2}, {a2}) in betas", f"({c1}, {a2}, {c2}, {a1}) in betas") for t_, p_ in fs) and isinstance(sk, ast.Continue)
+            ctx.check(oks, "R-REGISTER", "a pair is skipped only when its own beta variable already exists", f, sk,
+                      "a de-duplication keyed by less than (c1, a1, c2, a2) (e.g. the pair of computations alone) creates the variables for the first pair of agents only: "
+                      "communication over every other pair of agents drops out of the objective")
     # fixed lists agree with the pin constraints
     for lst, val in (("x_fixed_to_1", 1), ("x_fixed_to_0", 0)):
         apps = [c for c in ast.walk(f.node) if isinstance(c, ast.Call) and norm(c.func) == f"{lst}.append" and len(c.args) == 1]
@@ -562,6 +570,7 @@ def check(ctx: Ctx):
 _C = "pydcop/distribution/oilp_cgdp.py"
 _Fg = "pydcop/distribution/ilp_fgdp.py"
 VARIANTS = [
+    ("betas_deduplicated_by_computation_pair", "pydcop/distribution/oilp_cgdp.py", ["    betas = {}\n    count = 0\n", "                if (c1, a1, c2, a2) in betas:\n                    continue\n"], ["    betas = {}\n    linked = set()\n    count = 0\n", "                if (c1, c2) in linked:\n                    continue\n                linked.add((c1, c2))\n"], "break", "R-REGISTER"),
     ("cgdp_second_block_copy_paste", _C, "                elif (c1, a2) in x_fixed_to_1:\n                    pb += b == xs[(c2, a1)]", "                elif (c1, a2) in x_fixed_to_1:\n                    pb += b == xs[(c2, a2)]", "break", "R-LINEAR"),
     ("cgdp_register_in_else", _C, "                b = LpVariable(\"b_{}_{}_{}_{}\".format(c1, a2, c2, a1), cat=LpBinary)\n                betas[(c1, a2, c2, a1)] = b\n                if (c1, a2) in x_fixed_to_0 or (c2, a1) in x_fixed_to_0:\n                    pb += b == 0",
      "                b = LpVariable(\"b_{}_{}_{}_{}\".format(c1, a2, c2, a1), cat=LpBinary)\n                if (c1, a2) in x_fixed_to_0 or (c2, a1) in x_fixed_to_0:\n                    pb += b == 0", "break", "R-REGISTER"),
